@@ -200,7 +200,9 @@ AppendClauses(e) ==
        C09_append_entries |-> (same /\ okc) => (IF a.kind = "I" THEN e.ret.ents = a.ents \o shifted
                                                   ELSE SameBag(e.ret.ents, a.ents \o shifted) /\ WFTier(e.ret)),
        C09_append_labels |-> (same /\ RetTier(e)) => SameBag(Labels(e.ret.ents), Labels(a.ents) \o Labels(b.ents)),
-       C09_append_span |-> (same /\ okc) => (e.ret.lo = a.lo /\ e.ret.hi = a.hi + b.hi) ]
+       C09_append_span |-> (same /\ okc) => (e.ret.lo = a.lo /\ e.ret.hi = a.hi + b.hi),
+       \* "A's entries unchanged": also in A itself, so that a second append to the same A starts from the same A
+       C09_append_leaves_both_operands_as_they_were |-> e.post = e.pre /\ e.argpost = e.arg ]
 
 (* shift by +x then -x (op "editRoundTrip"): restores every entry when nothing was clipped *)
 EditRoundTripClauses(e) ==
